@@ -137,7 +137,8 @@ def run(ctx: Ctx) -> None:
             ctx.check("C01.R3", w, f"scope[{k}]", got == wantv, f"scope[{k}] is {got}, expected {wantv}", items.get(k) or sd)
         ini = repo.func(mod, f"{cls}.__init__")
         stores = {dotted(n.targets[0]): norm(n.value) for n in walk_local(ini) if isinstance(n, ast.Assign) and dotted(n.targets[0])}
-        ok = stores.get("self.scheme") == f"'{scheme_t}' if ssl else '{scheme_f}'" and stores.get("self.client") == "client" and stores.get("self.server") == "server" and stores.get("self.send") == "send" and stores.get("self.stream_id") == "stream_id" and stores.get("self.app") == "app"
+        sch = {norm(n.value): guard_atoms(n) for n in walk_local(ini) if isinstance(n, ast.Assign) and dotted(n.targets[0]) == "self.scheme"}
+        ok = sch == {f"'{scheme_t}'": {("ssl", True)}, f"'{scheme_f}'": {("ssl", False)}} and stores.get("self.client") == "client" and stores.get("self.server") == "server" and stores.get("self.send") == "send" and stores.get("self.stream_id") == "stream_id" and stores.get("self.app") == "app"
         ctx.check("C01.R3", f"{mod}:{cls}.__init__", f"scheme = {scheme_t} if ssl else {scheme_f}; client/server/send/app stored from their parameters", ok, f"stores: { {k: v for k, v in stores.items() if k in ('self.scheme', 'self.client', 'self.server', 'self.send', 'self.stream_id', 'self.app')} }", ini)
         imp = [n for n in repo.module(mod).tree.body if isinstance(n, ast.ImportFrom) and n.module == "urllib.parse" and any(a.name == "unquote" and a.asname is None for a in n.names)]
         ctx.check("C01.R3", w, "unquote is urllib.parse.unquote", len(imp) == 1, "path decoding must use urllib.parse.unquote", None)
@@ -224,20 +225,50 @@ def run(ctx: Ctx) -> None:
     ok = len(q) == 1 and "open_memory_channel" in norm(q[0].value) and norm(q[0].value.args[0]) == "config.max_app_queue_size" and "app_receive_channel.receive" in norm(t) and norm([n for n in walk_local(t) if isinstance(n, ast.Return)][0].value) == "app_send_channel.send"
     ctx.check("C01.R8", "trio.task_group:TaskGroup.spawn_app", "open_memory_channel(config.max_app_queue_size): send returned, receive given to the app", ok, "request messages must travel through one bounded FIFO channel", t)
 
+    # ---------- R14 (addresses)
+    ctx.rule("C01.R14", "scope client/server are (host, port) pairs: parse_socket_addr maps an AF_INET sockaddr to itself, an AF_INET6 4-tuple to its first two fields and anything else to None (decision table, interpreted); both workers feed it the socket's family and getpeername/getsockname", floor=3)
+    from ..pred import eval_function as _evf
+
+    psa = repo.func("utils", "parse_socket_addr")
+    fam = {"socket.AF_INET": 2, "socket.AF_INET6": 10, "socket.AF_UNIX": 1}
+    for famv, addr, want in ((2, ("1.2.3.4", 80), ("1.2.3.4", 80)), (10, ("::1", 8080, 0, 0), ("::1", 8080)), (1, "/tmp/sock", None)):
+        try:
+            got = _evf(psa, {**fam, "family": famv, "address": addr})
+            got = tuple(got) if isinstance(got, (list, tuple)) else got
+        except Exception as error:
+            got = f"not evaluable: {error}"
+        ctx.check("C01.R14", "utils:parse_socket_addr", f"family {famv}: {addr} -> {want}", got == want, f"parse_socket_addr({famv}, {addr}) gives {got}, expected {want}: the scope's client/server would not be the (host, port) pair", psa)
+
     # ---------- R9
     vs = repo.func("utils", "valid_server_name")
     wv = "utils:valid_server_name"
-    hostdef = [n for n in walk_local(vs) if isinstance(n, ast.Assign) and dotted(n.targets[0]) == "host" and norm(n.value) != "''"]
-    ok = len(hostdef) == 1
-    if ok:
-        gs = [(t, p) for t, p in guards(hostdef[0]) if "name" in {x.id for x in ast.walk(t) if isinstance(x, ast.Name)}]
+    from ..pred import eval_function
+
+    table = [
+        ([], [(b"host", b"b.com")], True),
+        (["a.com"], [(b"host", b"a.com")], True),
+        (["a.com"], [(b"Host", b"a.com")], True),
+        (["a.com"], [(b"HOST", b"a.com")], True),
+        (["a.com"], [(b"x-host", b"a.com")], False),
+        (["a.com"], [(b"hosts", b"a.com")], False),
+        (["a.com"], [(b"host", b"b.com")], False),
+        (["a.com"], [], False),
+        (["a.com", "c.com"], [(b"x", b"y"), (b"host", b"c.com")], True),
+        (["a.com"], [(b"host", b"b.com"), (b"host", b"a.com")], False),
+    ]
+    ok = True
+    bad = ""
+    for names, hdrs, want in table:
         try:
-            m = lambda nm: all(bool(eval_expr(t, {"name": nm, "value": b"v"})) == p for t, p in gs)
-            ok = m(b"host") and m(b"Host") and m(b"HOST") and not m(b"x-host") and not m(b"hosts")
-        except Unknown:
+            got = eval_function(vs, {"config.server_names": names, "request.headers": hdrs})
+        except Exception as error:  # Unknown construct / raised
+            got = f"not evaluable: {error}"
+        if got is not want:
             ok = False
-        ok = ok and "request.headers" in provenance(hostdef[0].value, vs).leaves
-    ctx.check("C01.R9", wv, "host header matched case-insensitively", ok, "with h11_pass_raw_headers the header arrives as the client spelt it (e.g. `Host`): a case-sensitive match yields 404 for a configured server name", hostdef[0] if hostdef else vs)
+            bad = f"server_names={names} headers={hdrs}: {got}, expected {want}"
+            break
+    hostdef = [vs]
+    ctx.check("C01.R9", wv, "host header matched case-insensitively", ok, "with h11_pass_raw_headers the header arrives as the client spelt it (e.g. `Host`): a case-sensitive match yields 404 for a configured server name; the first host header decides. " + bad, vs)
     rets = [n for n in walk_local(vs) if isinstance(n, ast.Return)]
     r_true = [r for r in rets if norm(r.value) == "True"]
     ok = len(r_true) == 1 and ("len(config.server_names) == 0", True) in guard_atoms(r_true[0]) and any(norm(r.value) == "host in config.server_names" for r in rets) and len(rets) == 2
